@@ -299,12 +299,28 @@ func (m *Model) Predict(s *Stmt) *Expect {
 			}
 		}
 		var full [][]Val
+		tname0 := s.Table
+		partial := func(e *Expect, k int) *Expect {
+			// a statement failing at row k applied rows 0..k-1 and then took them
+			// back last-first: while it is being logged, the admissible states are
+			// the prefixes of those rows (C03); once it returned, nothing (C14)
+			e.FailAt = k
+			e.NOps = k
+			rows := append([][]Val(nil), full...)
+			e.apply = func(m *Model, n int) {
+				t := m.DBs[dbName].Table(tname0)
+				for i, vals := range rows {
+					if n >= 0 && i >= n {
+						break
+					}
+					t.Rows = append(t.Rows, &MRow{Vals: append([]Val(nil), vals...)})
+				}
+			}
+			return e
+		}
 		for k, row := range s.Rows {
 			if len(row) != len(names) {
-				e := fail(EColCount)
-				e.FailAt = k
-				e.NOps = len(s.Rows)
-				return e
+				return partial(fail(EColCount), k)
 			}
 			vals := make([]Val, len(t.Cols))
 			for i := range vals {
@@ -319,10 +335,7 @@ func (m *Model) Predict(s *Stmt) *Expect {
 				vals[idx] = row[i]
 			}
 			if errs := rowErrors(t.Cols, vals); len(errs) > 0 {
-				e := fail(errs...)
-				e.FailAt = k
-				e.NOps = len(s.Rows)
-				return e
+				return partial(fail(errs...), k)
 			}
 			full = append(full, vals)
 		}
@@ -362,6 +375,18 @@ func (m *Model) Predict(s *Stmt) *Expect {
 			if errs := rowErrors(t.Cols, vals); len(errs) > 0 {
 				e := fail(errs...)
 				e.FailAt = len(ups)
+				e.NOps = len(ups)
+				done := append([]upd(nil), ups...)
+				tn := s.Table
+				e.apply = func(m *Model, n int) {
+					t := m.DBs[dbName].Table(tn)
+					for i, u := range done {
+						if n >= 0 && i >= n {
+							break
+						}
+						t.Rows[u.pos].Vals = append([]Val(nil), u.vals...)
+					}
+				}
 				return e
 			}
 			ups = append(ups, upd{pos, vals})
